@@ -161,8 +161,14 @@ def parseXsd (p : XsdParser) (lex : String) (flt : Option FloatAtom) : Conv :=
     | none => .isNone
   | .anyURI => .ok (.uri lex)
 
-/-- `_auto_literal_conversion`. Returns the new manager state (the `QualifiedName` branch
-    registers namespaces). `flt` as in `parseXsd`. -/
+/-- a Literal that stays a Literal: its datatype is resolved through the bundle (registering the namespace) -/
+def rehomeLit (m : NsMgr) (lex : String) (ty : Option QName) (lang : Option String) : NsMgr × Conv :=
+  match ty with
+  | some t => let r := m.validQ t; (r.1, .ok (.lit lex (some r.2) lang))
+  | none => (m, .ok (.lit lex none lang))
+
+/-- `_auto_literal_conversion`. Returns the new manager state (the `QualifiedName` branches
+    register namespaces). `flt` as in `parseXsd`. -/
 def autoLiteral (m : NsMgr) (v : ArgVal) (flt : Option FloatAtom) : NsMgr × Conv :=
   match v with
   | .nil => (m, .isNone)
@@ -176,10 +182,11 @@ def autoLiteral (m : NsMgr) (v : ArgVal) (flt : Option FloatAtom) : NsMgr × Con
       | some p =>
         match parseXsd p lex flt with
         | .ok v => (m, .ok v)
-        | .isNone => (m, .ok (.lit lex ty none))
+        | .isNone => rehomeLit m lex ty none
         | .crash e => (m, .crash e)
-      | none => (m, .ok (.lit lex ty none))
+      | none => rehomeLit m lex ty none
     | none => (m, .ok (.str lex))
+  | .val (.lit lex ty (some lang)) => rehomeLit m lex ty (some lang)
   | .val v => (m, .ok v)
 
 /-- what the caller passed as an attribute-name / reference argument -/
